@@ -138,6 +138,38 @@ func (c *Ctx) buildModAnalysis() {
 	for _, fn := range fns {
 		ma.summary[fn] = &ModSet{}
 	}
+	// package-level variables that are written outside package initialisers or whose
+	// address is used as a value are mutable; all others are constants after init
+	c.mutableGlobals = map[string]bool{}
+	for _, fn := range fns {
+		isInit := fn.Name() == "init" || strings.HasPrefix(fn.Name(), "init#")
+		for _, b := range fn.Blocks {
+			for _, in := range b.Instrs {
+				var ops []*ssa.Value
+				ops = in.Operands(ops)
+				for _, op := range ops {
+					if op == nil || *op == nil {
+						continue
+					}
+					g, ok := (*op).(*ssa.Global)
+					if !ok {
+						continue
+					}
+					switch x := in.(type) {
+					case *ssa.UnOp:
+						continue // load
+					case *ssa.Store:
+						if x.Addr == ssa.Value(g) && isInit {
+							continue
+						}
+					case *ssa.DebugRef:
+						continue
+					}
+					c.mutableGlobals[g.String()] = true
+				}
+			}
+		}
+	}
 	// fixpoint
 	for iter := 0; iter < 50; iter++ {
 		changed := false
@@ -314,7 +346,9 @@ func (ma *modAnalysis) instrMods(fn *ssa.Function, in ssa.Instruction, inScope f
 			case "append":
 				if sl, ok := common.Args[0].Type().Underlying().(*types.Slice); ok {
 					ms.add("$alloc", ModAny)
-					ms.add(elemHeapName(sl.Elem()), kindOf(isFreshRoot(common.Args[0], inScope, map[ssa.Value]bool{})))
+					// default append model: the result never shares storage with its argument,
+					// so only the freshly allocated array is written
+					ms.add(elemHeapName(sl.Elem()), ModFresh)
 				}
 			case "copy":
 				if sl, ok := common.Args[0].Type().Underlying().(*types.Slice); ok {
